@@ -8,7 +8,7 @@ from .cfg import CFG, normalise
 
 NT_NAMES = ["S", "A", "B", "C", "D", "E"]
 L0_TERMS = [("a", "str", "a"), ("b", "str", "b"), ("c", "str", "c"),
-            ("d", "str", "d"), ("e", "str", "e")]
+            ("d", "str", "d"), ("e", "str", "e"), ("f", "str", "f"), ("g", "str", "g")]
 # overlapping lexicon (equal priorities)
 L1_TERMS = [("a", "str", "a"), ("b", "str", "b"), ("aa", "str", "aa"),
             ("ab", "str", "ab"), ("ap", "re", "a+"), ("x", "re", "[ab]"),
@@ -52,10 +52,64 @@ def cfgs(draw, max_nts=3, max_alts=3, max_rhs=3, min_terms=1, max_terms=3,
                 # hidden recursion through another non-terminal first
                 other = draw(st.sampled_from(nts))
                 rhs = [other, n] + draw(st.lists(sym, min_size=0, max_size=max(0, max_rhs - 2)))
+                if allow_empty and other != n and draw(st.booleans()):
+                    prods.append((other, ()))  # hidden left recursion through a nullable symbol
             else:
                 rhs = draw(st.lists(sym, min_size=0 if allow_empty else 1, max_size=max_rhs))
             prods.append((n, tuple(rhs)))
     g = normalise(nts, terms, prods)
+    return g.to_json()
+
+
+@st.composite
+def refused_merge_cfgs(draw):
+    """Grammars around the classic LR(1)-but-not-LALR(1) pattern
+        X: p A q | r B q | p B s | r A s;   A: w;  B: w
+    (merging the two states {A: w., B: w.} would add a reduce/reduce conflict,
+    so an LALR construction that refuses such merges has to split), with
+    generated variations: common tail non-terminals with nullable
+    alternatives, the pattern used in two contexts, extra alternatives."""
+    t = [x[0] for x in L0_TERMS]
+    p_, r_, q_, s_ = t[0], t[1], t[3], t[4]
+    prods = []
+    wrap = draw(st.integers(0, 2))
+    nts = ["S", "A", "B", "C", "D"]
+    X = "S"
+    if wrap:
+        # S: D | f D g   (the pattern lives in D and is reached in two contexts)
+        X = "D"
+        prods.append(("S", ("D",)))
+        prods.append(("S", (t[5], "D", t[6]) if wrap == 1 else (t[5], "D")))
+    w = draw(st.sampled_from([(t[2],), (t[2], "C"), ("C", t[2]), (t[2], t[2]), ("C",)]))
+    if w == ("C",):
+        cal = [(t[2],), (t[2], t[5])]
+    else:
+        cal = draw(st.lists(st.sampled_from([(), (t[5],), (t[6],), (t[5], "C"), ("C", t[5])]),
+                            min_size=1, max_size=2, unique=True))
+    prods += [(X, (p_, "A", q_)), (X, (r_, "B", q_)), (X, (p_, "B", s_)), (X, (r_, "A", s_))]
+    drop = draw(st.integers(0, 5))
+    if drop >= 4:
+        # variation: one side without trailing terminal
+        prods[-1] = (X, (r_, "A"))
+        prods[-2] = (X, (p_, "B"))
+        prods[-4 + 0] = (X, (p_, "A", q_))
+    extra = draw(st.lists(st.sampled_from([(p_, "C", t[5]), (r_, "C"), (t[2],), ("A",), (p_, X, q_)]),
+                          max_size=2, unique=True))
+    prods += [(X, e) for e in extra]
+    a_tail = draw(st.sampled_from([(), ("C",)]))
+    prods.append(("A", w + a_tail))
+    prods.append(("B", w))
+    third = draw(st.integers(0, 3))
+    if third:
+        # a third rule sharing the prefix w whose item is not at its end in the
+        # split states (its closure inherits the kernel lookahead)
+        nts = nts + ["E"]
+        prods.append(("E", w + ("C",)))
+        ctxs = [(p_, "E", t[5]), (r_, "E"), (p_, "E"), (r_, "E", t[6])]
+        k = draw(st.lists(st.sampled_from(ctxs), min_size=1, max_size=2, unique=True))
+        prods += [(X, c) for c in k]
+    prods += [("C", c) for c in cal]
+    g = normalise(nts, L0_TERMS, prods)
     return g.to_json()
 
 
